@@ -1,4 +1,5 @@
 """C16 - every lookup and iteration terminates within work bounded by the input size (structural bound)."""
+import os
 from ..census import call_graph_sccs
 from ..engine import analyze_fn, norm, State
 from ..prover import Prover
@@ -88,9 +89,17 @@ def check_next(F, fn, bounded_types):
                 elif pv.lt(fin, init, fst.facts):
                     progress[fd["name"]] = "down"
                 else:
-                    progress[fd["name"]] = "?:" + pp(fin)[:100]
+                    progress[fd["name"]] = "?:" + pp(fin)[:int(os.environ.get("VERIF_PP", "100"))]
             downs = [k for k, v in progress.items() if v == "down"]
             ups = [k for k, v in progress.items() if v == "up"]
+            # "never yields more records than its declared count": an iterator that carries a `count` spends one unit of it (or all
+            # of it) for every item, whatever else makes progress
+            if any(fd["name"] == "count" and fd["ty"] in INT_BITS and fd["ty"] not in SIGNED for fd in fdefs) and "count" not in downs:
+                ci = [i for i, fd in enumerate(fdefs) if fd["name"] == "count"][0]
+                cfin = an.read(fst, (("M", p1), (("f", ci, "count"),)))
+                if not ((cfin.op == "const" and cfin.args[1] == 0) or pv.ub(cfin, fst.facts) == 0):
+                    return False, ("an item is yielded on a path where the declared count is not decreased (count after: %s): the iterator can "
+                                   "yield more records than its declared count" % pp(cfin)[:120])
             if downs:
                 # a declared count decreases; if it can stay non-zero the offset must also have moved
                 cname = downs[0]
